@@ -239,9 +239,9 @@ loadBinaryEdgeList(
 
     VertexIndex vertex1, vertex2;
     EdgeLabel label;
-    while (readBinaryValue(fileStream, vertex1)) {
-        readBinaryValue(fileStream, vertex2);
-        fromBinary(fileStream, label);
+    while (readBinaryValue(fileStream, vertex1) &&
+           readBinaryValue(fileStream, vertex2) &&
+           fromBinary(fileStream, label)) {
 
         if (vertex1 >= returnedGraph.getSize())
             returnedGraph.resize(vertex1 + 1);
@@ -264,8 +264,8 @@ loadBinaryEdgeList(const std::string &fileName) {
 
     VertexIndex vertex1, vertex2;
     NoLabel label;
-    while (readBinaryValue(fileStream, vertex1)) {
-        readBinaryValue(fileStream, vertex2);
+    while (readBinaryValue(fileStream, vertex1) &&
+           readBinaryValue(fileStream, vertex2)) {
 
         if (vertex1 >= returnedGraph.getSize())
             returnedGraph.resize(vertex1 + 1);
